@@ -31,7 +31,7 @@ from checks.c08 import flat
 from sa import astq, intervals
 from sa.blockeval import Unknown
 from sa.consteval import Folder
-from sa.evalx import BlockEvalX, ClassStub, Stub
+from sa.evalx import BlockEvalX, ClassStub, Stub, instance_dict, set_attribute
 from sa.model import norm
 
 T1, T2 = "tertiary", "tertiary_v2"
@@ -939,6 +939,284 @@ def _unit_text(v: Any) -> str:
 
 def _short(v: Any) -> str:
     return repr(v)[:60]
+
+
+# ---------------------------------------------------------------------------------------------------------------------
+# tertiary_v2.Residue.find_atom / Atom.coordinates: a lookup answers from the frame as it is NOW
+# ---------------------------------------------------------------------------------------------------------------------
+class _Mask:
+    _folder_stub = True
+
+    def __init__(self, bits):
+        self.bits = list(bits)
+
+    def __and__(self, o):
+        return _Mask(a and b for a, b in zip(self.bits, o.bits))
+
+    def __or__(self, o):
+        return _Mask(a or b for a, b in zip(self.bits, o.bits))
+
+    def __invert__(self):
+        return _Mask(not a for a in self.bits)
+
+    def any(self):
+        return any(self.bits)
+
+    def sum(self):
+        return sum(self.bits)
+
+    def __len__(self):
+        return len(self.bits)
+
+
+class _ILoc:
+    _folder_stub = True
+
+    def __init__(self, get, n):
+        self.get, self.n = get, n
+
+    def __getitem__(self, i):
+        if not isinstance(i, int):
+            raise Unknown("positional indexing other than by one integer")
+        if not -self.n <= i < self.n:
+            raise IndexError("single positional indexer is out-of-bounds")
+        return self.get(i % self.n)
+
+
+class _Column:
+    _folder_stub = True
+
+    def __init__(self, values):
+        self.values = list(values)
+
+    def __eq__(self, v):
+        return _Mask(x == v for x in self.values)
+
+    def __ne__(self, v):
+        return _Mask(x != v for x in self.values)
+
+    __hash__ = None
+
+    def isin(self, vs):
+        return _Mask(x in list(vs) for x in self.values)
+
+    @property
+    def iloc(self):
+        return _ILoc(lambda i: self.values[i], len(self.values))
+
+    def tolist(self):
+        return list(self.values)
+
+    def __iter__(self):
+        return iter(self.values)
+
+    def __len__(self):
+        return len(self.values)
+
+
+class _Row:
+    """One row taken out of a frame: a copy (what pandas gives for `frame[mask].iloc[0]`)."""
+
+    _folder_stub = True
+
+    def __init__(self, cells: Dict[str, Any]):
+        self.cells = dict(cells)
+
+    def __getitem__(self, k):
+        if isinstance(k, str):
+            return self.cells[k]
+        raise Unknown("row indexing other than by a column name")
+
+    def __contains__(self, k):
+        return k in self.cells
+
+    def get(self, k, default=None):
+        return self.cells.get(k, default)
+
+    @property
+    def index(self):
+        return list(self.cells)
+
+
+class _Frame:
+    """What the lookup needs of a pandas frame of atoms.  Rows are live: the rule moves the coordinates *in place* (the frame
+    object stays the same), boolean-mask selection and .iloc[i] give copies as in pandas."""
+
+    _folder_stub = True
+
+    def __init__(self, rows: List[Dict[str, Any]], fmt: str):
+        self.rows = rows
+        self.attrs = {"format": fmt}
+
+    @property
+    def columns(self):
+        return list(self.rows[0]) if self.rows else []
+
+    def __getitem__(self, k):
+        if isinstance(k, str):
+            if k not in self.columns:
+                raise KeyError(k)
+            return _Column(r[k] for r in self.rows)
+        if isinstance(k, _Mask):
+            if len(k) != len(self.rows):
+                raise ValueError("Item wrong length")
+            return _Frame([dict(r) for r, b in zip(self.rows, k.bits) if b], self.attrs["format"])
+        if isinstance(k, list):
+            return _Frame([{c: r[c] for c in k} for r in self.rows], self.attrs["format"])
+        raise Unknown("frame indexing other than by a column name, a list of names or a boolean mask")
+
+    @property
+    def iloc(self):
+        return _ILoc(lambda i: _Row(self.rows[i]), len(self.rows))
+
+    @property
+    def empty(self):
+        return not self.rows
+
+    def __len__(self):
+        return len(self.rows)
+
+
+_XYZ = {"PDB": ("x", "y", "z"), "mmCIF": ("Cartn_x", "Cartn_y", "Cartn_z")}
+_LOOKUP_ATOMS = ["P", "O5'", "C5'", "C4'", "C3'", "O3'", "C1'", "N9"]
+
+
+def _atom_rows(fmt: str, name_cols: Sequence[str], shift: float) -> List[Dict[str, Any]]:
+    rows = []
+    for i, a in enumerate(_LOOKUP_ATOMS):
+        row: Dict[str, Any] = {c: a for c in name_cols}
+        row.update({"element": a[0], "type_symbol": a[0]})
+        for k, c in enumerate(_XYZ[fmt]):
+            row[c] = shift + 1.0 + i + 0.25 * k
+        rows.append(row)
+    return rows
+
+
+def check_lookup_current(chk) -> None:
+    """The torsion table asks `residue.find_atom(name).coordinates` for every atom.  Fact: that answer is a function of the residue's
+    frame as it is at the time of the call - whatever was looked up before on the same residue (the classes of a call history that
+    matter to a memo: the same atom asked before / another atom asked before / the class' own connectivity test ran before), an
+    in-place change of the coordinate columns (a rigid motion written back, a superposition) or a replaced frame is what a later
+    lookup sees.  Otherwise a table computed after a motion mixes positions from before and after it: the torsions are no longer
+    invariant under a rigid motion.  Decided by evaluating find_atom and Atom.coordinates on stub frames."""
+    repo = chk.repo
+    rule = "lookup-current-state"
+    if not repo.has_func(T2, "Residue.find_atom"):
+        chk.error(rule, f"src/rnapolis/{T2}.py Residue", "Residue.find_atom not found: how the torsion table reaches the coordinates cannot be read")
+        return
+    fa = repo.func(T2, "Residue.find_atom")
+    chk.note_function(fa)
+    np_ = _np_stub()
+    np_.__dict__.update(array=lambda v, *a: _Pt("xyz", v), asarray=lambda v, *a: _Pt("xyz", v), linalg=Stub("numpy.linalg", norm=lambda v, *a: _Norm(math.sqrt(sum(c * c for c in _xyz(v))))))
+    glob: Dict[str, Any] = {"np": np_, "numpy": np_}
+
+    def atom(data, fmt):
+        return ClassStub(repo, T2, "Atom", {"data": data, "format": fmt}, glob, label="atom")
+
+    glob["Atom"] = atom
+
+    def residue(fmt, name_cols, shift=0.0):
+        fr = _Frame(_atom_rows(fmt, name_cols, shift), fmt)
+        return ClassStub(repo, T2, "Residue", {"atoms": fr, "format": fmt}, glob, label="residue"), fr
+
+    def coords(res, name):
+        a = res.find_atom(name)
+        if a is None:
+            return None
+        c = a.coordinates
+        return tuple(float(x) for x in c)
+
+    def expected(fr, fmt, name_cols, name):
+        for r in fr.rows:
+            if r[name_cols[0]] == name:
+                return tuple(float(r[c]) for c in _XYZ[fmt])
+        return None
+
+    layouts = [("PDB", ["name"]), ("mmCIF", ["auth_atom_id", "label_atom_id"]), ("mmCIF", ["label_atom_id"])]
+    histories = [
+        ("nothing was looked up before", lambda res, other: None),
+        ("the same atoms were looked up before", lambda res, other: [coords(res, a) for a in ("O3'", "P", "C4'")]),
+        ("other atoms were looked up before", lambda res, other: [coords(res, a) for a in ("C1'", "N9")]),
+        ("the connectivity test of the class ran before", lambda res, other: (res.is_connected(other), other.is_connected(res))),
+    ]
+    changes = [
+        ("the coordinate columns of the residue's frame are changed in place", "in-place"),
+        ("the residue's frame is replaced by a moved copy", "replaced"),
+    ]
+    stale: Dict[str, str] = {}
+    wrong: Dict[str, str] = {}
+    leftovers: Dict[str, str] = {}
+    n = 0
+    try:
+        for fmt, name_cols in layouts:
+            for hlabel, history in histories:
+                for clabel, how in changes:
+                    res, fr = residue(fmt, name_cols)
+                    other, _ = residue(fmt, name_cols, shift=0.5)
+                    before = set(instance_dict(res))
+                    try:
+                        history(res, other)
+                    except _STUB_LIMITS + (Unknown,) as ex:
+                        if "connectivity" in hlabel:
+                            continue  # the connectivity test is outside the evaluable fragment: the other histories decide
+                        raise Unknown(f"{type(ex).__name__}: {ex}")
+                    left = sorted(set(instance_dict(res)) - before)
+                    if how == "in-place":
+                        for r in fr.rows:
+                            for c in _XYZ[fmt]:
+                                r[c] = r[c] + 10.0
+                    else:
+                        fr = _Frame([{k: (v + 10.0 if k in _XYZ[fmt] else v) for k, v in r.items()} for r in fr.rows], fmt)
+                        set_attribute(res, "atoms", fr)
+                    for a in ("O3'", "P", "C4'", "C1'", "XX"):
+                        n += 1
+                        try:
+                            got = coords(res, a)
+                        except _STUB_LIMITS as ex:
+                            raise Unknown(f"{type(ex).__name__}: {ex}")
+                        want = expected(fr, fmt, name_cols, a)
+                        if got == want:
+                            continue
+                        case = f"{fmt} frame with {'/'.join(name_cols)}: {hlabel}, then {clabel}, then find_atom({a!r}).coordinates"
+                        old = None if want is None else tuple(x - 10.0 for x in want)
+                        if got is not None and got == old:
+                            stale[case] = f"{got} (the position from before the change) instead of {want}"
+                            if left:
+                                leftovers[case] = ", ".join(f"`{k}`" for k in left)
+                        else:
+                            wrong[case] = f"{got} instead of {want}"
+    except Unknown as ex:
+        chk.error(rule, fa.where, f"Residue.find_atom / Atom.coordinates are not evaluable on a stub frame ({str(ex)[:140]}): whether a lookup after a change of the coordinates sees the change is not decided")
+        return
+    except Exception as ex:
+        chk.error(rule, fa.where, f"evaluation of Residue.find_atom on a stub frame failed: {type(ex).__name__}: {str(ex)[:120]}")
+        return
+    if stale:
+        k = next(iter(stale))
+        kept = f"; the earlier call leaves {leftovers[k]} on the residue object, which the later lookup answers from" if k in leftovers else ""
+        chk.violation(
+            rule,
+            fa.where,
+            f"a lookup does not answer from the current frame: {k} returns {stale[k]}{kept}. What find_atom returns depends on what was asked before the coordinates changed ({len(stale)} of {n} lookups stale), "
+            "so a torsion table computed after a rigid motion / superposition was written back mixes positions from before and after it: the torsions are not those of the moved structure (nor invariant under the motion)",
+            K(fa, "lookup-stale"),
+            expected="the coordinates in the frame at the time of the call",
+            found=dict(list(stale.items())[:4]),
+        )
+    elif wrong:
+        k = next(iter(wrong))
+        chk.violation(rule, fa.where, f"find_atom(name).coordinates is not the position of the first atom of that name in the residue's frame: {k} returns {wrong[k]}", K(fa, "lookup-wrong"), found=dict(list(wrong.items())[:4]))
+    else:
+        chk.ok(rule, fa.where, f"find_atom(name).coordinates is the position the residue's frame holds at the time of the call: {n} lookups after a change of the coordinates (in place / frame replaced) x what was looked up before (nothing, the same atoms, other atoms, the connectivity test) x 3 frame layouts all see the changed coordinates; an absent atom stays absent")
+
+
+class _Norm(float):
+    """numpy scalar: has .item()"""
+
+    _folder_stub = True
+
+    def item(self):
+        return float(self)
 
 
 def check_chi(chk) -> None:
